@@ -147,6 +147,10 @@ type FS struct {
 	SlowLen int
 	SlowBy  time.Duration
 	Stalled int // steps that were delayed
+	// FailNextReadOpens: that many of the next opens of an existing regular file for reading
+	// fail with ReadErr (e.g. EMFILE: the process is out of file descriptors for a moment)
+	FailNextReadOpens int
+	ReadErr           error
 	Counts  map[string]int
 }
 
@@ -681,6 +685,15 @@ func OpenFile(name string, flag int, perm FileMode) (*File, error) {
 		}
 	} else {
 		t.Yield("fs open")
+		if f.FailNextReadOpens > 0 {
+			if n := f.walk(name); n != nil && !n.dir {
+				f.FailNextReadOpens--
+				f.Fired++
+				t.Sim().Count("fault.fs_error", 1)
+				t.Sim().Count("fault.fs_error@open-for-reading", 1)
+				return nil, perr("open", name, f.ReadErr)
+			}
+		}
 	}
 	n := f.walk(name)
 	if n == nil {
